@@ -521,7 +521,13 @@ class FatPath:
                 first_cluster_hi=
                     cluster >> 16 if fs.fat_type == 'fat32' else 0,
                 size=0)
-            parent._index[self.name] = entry
+            try:
+                parent._index[self.name] = entry
+            except OSError:
+                # No room for the entry in the parent: the cluster reserved
+                # for the new directory would otherwise be lost
+                fs.fat.mark_free(cluster)
+                raise
             self._index = fs.open_dir(cluster)
             self._entry = entry
 
